@@ -19,8 +19,16 @@ from pathlib import Path
 ROOT = Path(__file__).resolve().parent.parent
 REPO = Path(os.environ.get('FPY_REPO', '/repo'))
 COQ = ROOT / 'coq'
-BUILD = ROOT / 'build'
-EVID = ROOT / 'evidence'
+BUILD0 = ROOT / 'build'
+# A run against anything but /repo itself (a scratch worktree carrying a seeded change) must never
+# touch the committed evidence or the build directory of the real check: it gets its own.
+MUTANT_RUN = REPO.resolve() != Path('/repo')
+if MUTANT_RUN:
+    BUILD = BUILD0 / 'mut' / re.sub(r'[^A-Za-z0-9_.-]', '_', str(REPO.resolve()).strip('/'))
+    EVID = BUILD / 'evidence'
+else:
+    BUILD = BUILD0
+    EVID = ROOT / 'evidence'
 PY = '/venv/bin/python'
 
 # Axioms of the Coq standard library that may appear under Print Assumptions
@@ -72,8 +80,8 @@ def impl_env():
 
 class Lock:
     def __init__(self, name):
-        BUILD.mkdir(exist_ok=True)
-        self.path = BUILD / f'.lock-{name}'
+        BUILD0.mkdir(exist_ok=True)
+        self.path = BUILD0 / f'.lock-{name}'
 
     def __enter__(self):
         self.f = open(self.path, 'w')
